@@ -1216,8 +1216,11 @@ impl<'a, W: Write + 'a> ser::SerializeMap for MapSerializer<'a, W> {
         V: Serialize + ?Sized,
     {
         let buf = self.get_buffer_or_alloc_for_entry(key, value)?;
-        let mut serializer = Serializer::new(buf);
+        let mut serializer = Serializer::new(&mut *buf);
         key.serialize(&mut serializer)?;
+        // The value gets its own serializer, like in `serialize_value`, so that the mode
+        // set by the key (timestamp, array, ...) does not leak into the value
+        let mut serializer = Serializer::new(buf);
         value.serialize(&mut serializer)?;
         self.num += 2;
         Ok(())
